@@ -6,7 +6,10 @@ git apply "$d/patch.diff" || { echo "patch does not apply"; exit 2; }
 . /verif/bin/env.sh
 (cd /repo && go build ./... ) || echo "BUILD FAILS"
 for p in "$@"; do
+  cp /verif/evidence/$p.json /tmp/tryseed-evidence-$p.json 2>/dev/null
   out=$(/verif/bin/check $p quick 2>&1); rc=$?
+  # evidence written while the seeded change is applied must not stay in /verif/evidence
+  [ -f /tmp/tryseed-evidence-$p.json ] && mv /tmp/tryseed-evidence-$p.json /verif/evidence/$p.json
   echo "== $p rc=$rc: $(echo "$out" | grep -c '^VIOLATION') violation line(s)"
   echo "$out" | grep '^VIOLATION' | sed 's/.*obligation=//' | cut -c1-160 | head -6
 done
